@@ -1,1 +1,306 @@
-/- C13: property theorems (not yet built). -/
+/- C13 — Standard-library object and type functions match their definitions.
+   Property theorems only (helper lemmas live in Proofs/StdObj*.lean). -/
+import JrsVerif.Proofs.StdObj
+import JrsVerif.Proofs.StdObjEq
+import JrsVerif.Proofs.StdObjMerge
+import JrsVerif.Proofs.StdObjPrune
+
+namespace JrsVerif.StdObj
+
+/-! ## std.objectFields / objectFieldsAll / objectFieldsEx -/
+
+/-- names are listed in strictly ascending order (hence without repetition) -/
+theorem fields_sorted (o : FL) (hidden : Bool) : (fieldsEx o hidden).Pairwise (· < ·) :=
+  fieldsEx_asc o hidden
+
+/-- a name is listed iff the field exists (visibly, unless hidden ones were asked for) -/
+theorem fields_mem (o : FL) (hidden : Bool) (k : String) :
+    k ∈ fieldsEx o hidden ↔ hasEx o k hidden = true := mem_fieldsEx
+
+/-- the two facts above determine the answer: any ascending list with these members is it -/
+theorem fields_unique (o : FL) (hidden : Bool) (l : List String) (hl : l.Pairwise (· < ·))
+    (hm : ∀ k, k ∈ l ↔ hasEx o k hidden = true) : l = fieldsEx o hidden :=
+  asc_unique hl (fieldsEx_asc o hidden) (fun k => (hm k).trans mem_fieldsEx.symm)
+
+/-- visible fields are among all fields -/
+theorem fields_visible_sub_all (o : FL) (k : String) (h : k ∈ fieldsEx o false) :
+    k ∈ fieldsEx o true := by
+  rw [mem_fieldsEx] at *
+  simp only [hasEx] at *
+  exact has_imp_hasAll (by simpa using h)
+
+/-! ## std.objectHas / objectHasAll / objectHasEx -/
+
+/-- `objectHasEx(o, k, h)` (the walker) iff `k` is a member of `objectFieldsEx(o, h)` -/
+theorem has_iff_fields_mem (o : FL) (k : String) (hidden : Bool) :
+    Model.objectHasEx o k hidden = Spec.objectHasEx o k hidden := by
+  unfold Model.objectHasEx Spec.objectHasEx; exact contains_fieldsEx.symm
+
+/-! ## std.objectValues* / objectKeysValues* : lazy views -/
+
+/-- element i of `objectValues*(o)` is the *thunk* of field `objectFields*(o)[i]`: building the
+    array evaluates no field (a failing field is still there as a failing element) -/
+theorem values_pointwise (o : FL) (hidden : Bool) :
+    ∃ xs, Model.objectValuesEx o hidden = .arr xs ∧ xs.length = (fieldsEx o hidden).length ∧
+      ∀ i : Nat, xs.toList[i]? = (fieldsEx o hidden)[i]?.map (getLazy o) := by
+  refine ⟨_, rfl, ?_, ?_⟩
+  · simp [length_eq_toList, toList_ofList]
+  · intro i; simp [toList_ofList]
+
+/-- element i of `objectKeysValues*(o)` is `{key: name_i, value: <thunk of the field>}` -/
+theorem keysValues_pointwise (o : FL) (hidden : Bool) :
+    ∃ xs, Model.objectKeysValuesEx o hidden = .arr xs ∧ xs.length = (fieldsEx o hidden).length ∧
+      ∀ i : Nat, xs.toList[i]? = (fieldsEx o hidden)[i]?.map (fun k =>
+        V.obj (.cons "key" false (.str k) (.cons "value" false (getLazy o k) .nil))) := by
+  refine ⟨_, rfl, ?_, ?_⟩
+  · simp [length_eq_toList, toList_ofList]
+  · intro i; simp [toList_ofList]; rfl
+
+/-- non-vacuity: a failing field stays an unevaluated element, the call succeeds -/
+example : Model.objectValuesEx (.cons "a" false .err (.cons "b" true (.num 1) .nil)) true
+    = .arr (.cons .err (.cons (.num 1) .nil)) := by rfl
+
+/-! ## std.get -/
+
+/-- `builtin_get` = `if objectHasEx(o, f, inc_hidden) then o[f] else default` -/
+theorem get_spec (o : FL) (k : String) (d : V) (incHidden : Bool) :
+    Model.get o k d incHidden = Spec.get o k d incHidden := by
+  unfold Model.get Spec.get hasEx hasAll has getLazy
+  cases hf : o.find? k with
+  | none => cases incHidden <;> simp
+  | some p =>
+    obtain ⟨hid, v⟩ := p
+    cases incHidden <;> cases hid <;> simp
+
+/-- the default is not evaluated when the field exists: the answer does not depend on it, in
+    particular a failing default does no harm -/
+theorem get_default_lazy (o : FL) (k : String) (d d' : V) (incHidden : Bool)
+    (h : hasEx o k incHidden = true) : Model.get o k d incHidden = Model.get o k d' incHidden := by
+  rw [get_spec, get_spec]; simp [Spec.get, h]
+
+/-- an absent (or, with `inc_hidden=false`, hidden) field gives the default and is not evaluated -/
+theorem get_absent (o : FL) (k : String) (d : V) (incHidden : Bool)
+    (h : hasEx o k incHidden = false) : Model.get o k d incHidden = force d := by
+  rw [get_spec]; simp [Spec.get, h]
+
+example : Model.get (.cons "a" false (.num 1) .nil) "a" .err true = some (.num 1) := by rfl
+example : Model.get (.cons "a" true .err .nil) "a" (.num 5) false = some (.num 5) := by rfl
+
+/-! ## std.objectRemoveKey -/
+
+/-- the key is gone (also as a hidden field); every other field is exactly as it was
+    (same visibility, same unevaluated value) -/
+theorem removeKey_spec (o : FL) (k : String) :
+    ∃ r, Model.objectRemoveKey o k = .obj r ∧ r.find? k = none ∧
+      ∀ k', k' ≠ k → r.find? k' = o.find? k' :=
+  ⟨_, rfl, find?_erase_self o k, fun _ h => find?_erase_ne o h⟩
+
+/-- consequently its field list is the old one without the key -/
+theorem removeKey_fields (o : FL) (k : String) (hidden : Bool) :
+    fieldsEx (o.erase k) hidden = (fieldsEx o hidden).filter (· ≠ k) := by
+  apply asc_unique (fieldsEx_asc _ _) ((fieldsEx_asc o hidden).filter _)
+  intro x
+  rw [List.mem_filter, mem_fieldsEx, mem_fieldsEx]
+  by_cases hx : x = k
+  · subst hx
+    simp [hasEx, hasAll, has, find?_erase_self]
+  · simp [hasEx, hasAll, has, find?_erase_ne o hx, hx]
+
+/-! ## std.length, std.type, std.is*, std.xor, std.xnor -/
+
+/-- `std.length` on the five kinds: code points, elements, *visible* fields, parameters; an error
+    on null / booleans / numbers -/
+theorem length_spec :
+    (∀ s, Model.length (.str s) = some s.length) ∧
+    (∀ xs, Model.length (.arr xs) = some xs.toList.length) ∧
+    (∀ o, Model.length (.obj o) = some (fieldsEx o false).length) ∧
+    (∀ n, Model.length (.func n) = some n) ∧
+    Model.length .null = none ∧ (∀ b, Model.length (.bool b) = none) ∧
+    (∀ n, Model.length (.num n) = none) := by
+  refine ⟨fun _ => rfl, fun xs => ?_, fun _ => rfl, fun _ => rfl, rfl, fun _ => rfl, fun _ => rfl⟩
+  simp [Model.length, length_eq_toList]
+
+/-- every evaluated value has exactly one of the seven type names, and `std.isX` is the test for it -/
+theorem type_is_partition (v : V) (hv : v ≠ .err) :
+    (typeName v ∈ ["null", "boolean", "number", "string", "array", "object", "function"]) ∧
+    (isType "string" v = true ↔ ∃ s, v = .str s) ∧ (isType "number" v = true ↔ ∃ n, v = .num n) ∧
+    (isType "boolean" v = true ↔ ∃ b, v = .bool b) ∧ (isType "object" v = true ↔ ∃ o, v = .obj o) ∧
+    (isType "array" v = true ↔ ∃ a, v = .arr a) ∧ (isType "function" v = true ↔ ∃ n, v = .func n) ∧
+    (isType "null" v = true ↔ v = .null) := by
+  cases v <;> simp_all [typeName, isType]
+
+/-- truth tables -/
+theorem xor_xnor_table :
+    xor false false = false ∧ xor false true = true ∧ xor true false = true ∧ xor true true = false ∧
+    xnor false false = true ∧ xnor false true = false ∧ xnor true false = false ∧ xnor true true = true ∧
+    ∀ x y, xnor x y = !xor x y := by
+  refine ⟨rfl, rfl, rfl, rfl, rfl, rfl, rfl, rfl, ?_⟩
+  intro x y; cases x <;> cases y <;> rfl
+
+
+/-! ## std.equals / primitiveEquals / assertEqual -/
+
+/-- values of different types are unequal (no member is looked at) -/
+theorem equals_type_mismatch (a b : V) (ha : a ≠ .err) (hb : b ≠ .err)
+    (h : typeName a ≠ typeName b) : equals a b = some false := by
+  cases a <;> cases b <;> simp_all [equals, primitiveEquals, typeName]
+
+/-- on primitive values `equals` is `primitiveEquals`, which is `=` within one type -/
+theorem equals_primitive (a b : V) (ha : ∀ xs, a ≠ .arr xs) (ho : ∀ fs, a ≠ .obj fs) :
+    equals a b = primitiveEquals a b ∧
+    (∀ x y, primitiveEquals (.num x) (.num y) = some (decide (x = y))) ∧
+    (∀ x y, primitiveEquals (.str x) (.str y) = some (decide (x = y))) ∧
+    (∀ x y, primitiveEquals (.bool x) (.bool y) = some (decide (x = y))) ∧
+    primitiveEquals .null .null = some true ∧
+    (∀ x y, primitiveEquals (.arr x) (.arr y) = none) ∧
+    (∀ x y, primitiveEquals (.obj x) (.obj y) = none) ∧
+    (∀ x y, primitiveEquals (.func x) (.func y) = none) := by
+  refine ⟨equals_prim_left a b ha ho, ?_, ?_, ?_, rfl, fun _ _ => rfl, fun _ _ => rfl, fun _ _ => rfl⟩
+  · intro x y; simp only [primitiveEquals]; rfl
+  · intro x y; simp only [primitiveEquals]; rfl
+  · intro x y; cases x <;> cases y <;> simp [primitiveEquals]
+
+/-- symmetric on all values, failures included -/
+theorem equals_symm (a b : V) : equals a b = equals b a := equals_symm_V a b
+
+/-- whenever comparing a value with itself gives an answer, the answer is `true` -/
+theorem equals_self_true (v : V) (b : Bool) (h : equals v v = some b) : b = true :=
+  equals_self_V v b h
+
+/-- reflexive on values without functions and failing thunks -/
+theorem equals_refl (v : V) (h : clean v = true) : equals v v = some true := equals_refl_V v h
+
+example : clean (.obj (.cons "a" false (.arr (.cons (.num 1) .nil)) (.cons "b" true .null .nil))) = true := by
+  rfl
+
+/-- hidden fields do not take part: an object equals itself plus any hidden field -/
+example : equals (.obj (.cons "a" false (.num 1) .nil))
+    (.obj (.cons "h" true .err (.cons "a" false (.num 1) .nil))) = some true := by rfl
+
+/-- `assertEqual` succeeds (with `true`) exactly when `equals` says `true`, otherwise it fails -/
+theorem assertEqual_spec (a b : V) :
+    (assertEqual a b = some true ↔ equals a b = some true) ∧ assertEqual a b ≠ some false := by
+  unfold assertEqual
+  cases h : equals a b with
+  | none => simp
+  | some x => cases x <;> simp
+
+/-- FULL statement for one shared value (`local a = v; std.equals(a, a)`): the native shortcut
+    gives what the definition gives.  The current code violates it. -/
+def EqualsSameStmt : Prop := ∀ v : V, equalsSame v = equals v v
+
+/-- `local a = [error "x"]; std.equals(a, a)` : shortcut says `true`, the definition fails
+    (replayed on the real code by the harness; known finding
+    `c13_equals_shared_pointer_shortcut`) -/
+theorem equalsSame_counterexample : ¬ EqualsSameStmt := by
+  intro h
+  have := h (.arr (.cons .err .nil))
+  simp [equalsSame, equals, eqL, VL.length] at this
+
+/-- the shortcut is right whenever the definition gives an answer at all -/
+theorem equalsSame_partial (v : V) (h : equals v v ≠ none) : equalsSame v = equals v v := by
+  cases hv : equals v v with
+  | none => exact absurd hv h
+  | some b =>
+    have hb := equals_self_V v b hv
+    subst hb
+    cases v <;> simp_all [equalsSame]
+
+example : equals (.arr (.cons (.num 1) .nil)) (.arr (.cons (.num 1) .nil)) ≠ none := by
+  simp [equals, eqL, VL.length, primitiveEquals]
+
+/-! ## std.mapWithKey -/
+
+/-- one visible field per visible field, in ascending order; each value is the *deferred* call on
+    the key and the field's thunk (nothing is evaluated by `mapWithKey` itself) -/
+theorem mapWithKey_spec (f : String) (o : FL) :
+    Model.mapWithKey f o = Spec.mapWithKey f o ∧
+    ∃ r, Model.mapWithKey f o = .obj r ∧ r.names = fieldsEx o false := by
+  refine ⟨rfl, _, rfl, ?_⟩
+  generalize fieldsEx o false = ks
+  induction ks with
+  | nil => rfl
+  | cons k ks ih => simpa [FL.ofList, FL.names] using ih
+
+/-! ## std.mergePatch -/
+
+/-- the native loop = the documented definition (std.jsonnet's comprehension over
+    `objectFields`/`objectHas`, i.e. visible fields only), for all targets and patches, including
+    hidden fields on either side, nulls, nested objects and failing thunks -/
+theorem mergePatch_spec (t p : V) : Model.mergePatch t p = Spec.mergePatch t p :=
+  mergePatch_spec_V p t
+
+/-- RFC 7396: a patch that is not an object replaces the target -/
+theorem mergePatch_nonobject_patch (t p : V) (hp : ∀ pf, p ≠ .obj pf) :
+    Model.mergePatch t p = force p := by
+  cases p <;> simp_all [Model.mergePatch, force]
+
+/-- RFC 7396: a target that is not an object counts as `{}` -/
+theorem mergePatch_nonobject_target (t : V) (pf : FL) (ht : ∀ tf, t ≠ .obj tf) :
+    Model.mergePatch t (.obj pf) = Model.mergePatch (.obj .nil) (.obj pf) := by
+  have : targetFields t = .nil := by cases t <;> simp_all [targetFields]
+  simp only [Model.mergePatch]; rw [this]; rfl
+
+/-- only visible fields matter: two targets with the same visible fields and two patches with the
+    same visible fields give the same result (hidden fields on either side are never read) -/
+theorem mergePatch_visible_only (tf tf' pf pf' : FL) (ht : ∀ k, visView tf k = visView tf' k)
+    (hp : ∀ k, visView pf k = visView pf' k) :
+    Model.mergePatch (.obj tf) (.obj pf) = Model.mergePatch (.obj tf') (.obj pf') :=
+  mergePatch_visible_only_aux tf tf' pf pf' ht hp
+
+/-- the instance that failed before the repair: `std.mergePatch({a:1},{a::2})` is `{a:1}` -/
+example : Model.mergePatch (.obj (.cons "a" false (.num 1) .nil)) (.obj (.cons "a" true (.num 2) .nil))
+    = some (.obj (.cons "a" false (.num 1) .nil)) := by rfl
+example : ∀ k, visView (.cons "a" true (.num 2) .nil) k = visView .nil k := by
+  intro k; simp [visView, has, FL.find?]
+
+/-- field by field (RFC 7396 clauses): a visible `null` in the patch deletes; another visible patch
+    value is merged into the target's visible field of that name (or into `null`); a field the patch
+    does not show is the target's visible field, carried over unevaluated; nothing else exists; and
+    all fields of the result are visible -/
+theorem mergePatch_pointwise (t : V) (pf r : FL)
+    (h : Model.mergePatch t (.obj pf) = some (.obj r)) (k : String) :
+    r.find? k =
+      if has pf k then
+        (if isNull (getLazy pf k) then none
+         else (mergedField (targetFields t) k (getLazy pf k)).map (fun v => (false, v)))
+      else if has (targetFields t) k then some (false, getLazy (targetFields t) k)
+      else none :=
+  mergePatch_find t pf r h k
+
+/-- the result lists its fields in ascending order, each once -/
+theorem mergePatch_sorted (t : V) (pf r : FL) (h : Model.mergePatch t (.obj pf) = some (.obj r)) :
+    r.names.Pairwise (· < ·) := mergePatch_names t pf r h
+
+/-- untouched target fields stay lazy: a failing target field the patch does not mention neither
+    fails the call nor is it evaluated — it is still the same thunk in the result -/
+theorem mergePatch_untouched_lazy (t : V) (pf r : FL)
+    (h : Model.mergePatch t (.obj pf) = some (.obj r)) (k : String)
+    (hp : has pf k = false) (ht : has (targetFields t) k = true) :
+    r.find? k = some (false, getLazy (targetFields t) k) := by
+  rw [mergePatch_find t pf r h k]; simp [hp, ht]
+
+example : Model.mergePatch (.obj (.cons "a" false .err (.cons "b" false (.num 1) .nil)))
+    (.obj (.cons "b" false (.num 2) .nil))
+    = some (.obj (.cons "a" false .err (.cons "b" false (.num 2) .nil))) := by rfl
+
+/-! ## std.prune -/
+
+/-- the native recursion = the documented comprehension definition -/
+theorem prune_spec (v : V) : Model.prune v = Spec.prune v := prune_spec_V v
+
+/-- the result contains no `null`, no empty array and no empty object as a member, at any depth,
+    and objects of the result have only visible fields in ascending order -/
+theorem prune_pruned (v r : V) (h : Model.prune v = some r) : Pruned r := prune_pruned_V v r h
+
+/-- idempotent -/
+theorem prune_idempotent (v r : V) (h : Model.prune v = some r) : Model.prune r = some r :=
+  pruned_fix_V r (prune_pruned_V v r h)
+
+/-- `std.prune({a:{b::1}, c:[null,[],{}], d:{e:null}, f:0})` is `{f:0}` -/
+example : Model.prune (.obj (.cons "a" false (.obj (.cons "b" true (.num 1) .nil))
+      (.cons "c" false (.arr (.cons .null (.cons (.arr .nil) (.cons (.obj .nil) .nil))))
+      (.cons "d" false (.obj (.cons "e" false .null .nil)) (.cons "f" false (.num 0) .nil)))))
+    = some (.obj (.cons "f" false (.num 0) .nil)) := by rfl
+
+end JrsVerif.StdObj
